@@ -133,7 +133,7 @@ def site_text(model, fi, line):
     return unparse(best, 90)
 
 
-def report_sinks(ctx, rule_of, sc: Scan, fi=None, categories=None, why_of=None):
+def report_sinks(ctx, rule_of, sc: Scan, fi=None, categories=None, why_of=None, pass_only=()):
     """Turn the sinks of a scan into obligations: one per (site, category); flagged sites are violations.
     `rule_of(category)` -> rule id or None (category not claimed by the calling property)."""
     model = ctx.model
@@ -153,6 +153,8 @@ def report_sinks(ctx, rule_of, sc: Scan, fi=None, categories=None, why_of=None):
         ok = not msgs or not real
         if msgs and not real:
             continue            # secondary effect of a prefix-strip violation reported at its own site
+        if real and cat in pass_only:
+            continue            # a mismatch of this category is another property's matter
         text = site_text(model, fi, line)
         ctx.ob(rule, fi, line, f"{cat} at `{text}`", ok, fact=f"{count} evaluations over all paths and kinds",
                why='; '.join(real[:3]), key=f"{cat}: {text}")
